@@ -263,8 +263,8 @@ def main(tier):
     if r.violated:
         raise common.MachineryError("the specification itself violates %s\n%s" % (r.violated, "\n".join(common.tlc_counterexample(r.stdout, 60))))
     # the same machine with the read-only flag of the systems (AddUnitSystem(read_only=), SetReadOnly, IsReadOnly)
-    r = common.run_tlc("MC_USM", "MC_USM.cfg", bd, env=env(5 if thorough else 3, "allro"), coverage=False, tag="mc-ro", timeout=6000)
-    rep.add_tlc("manager machine with read-only flags, all calls, depth %d: invariants and action properties" % (5 if thorough else 3), r)
+    r = common.run_tlc("MC_USM", "MC_USM.cfg", bd, env=env(4 if thorough else 3, "allro"), coverage=False, tag="mc-ro", timeout=6000)
+    rep.add_tlc("manager machine with read-only flags, all calls, depth %d: invariants and action properties" % (4 if thorough else 3), r)
     if r.violated:
         raise common.MachineryError("the specification itself violates %s\n%s" % (r.violated, "\n".join(common.tlc_counterexample(r.stdout, 60))))
     # histories of any length: every state over the constants that satisfies the state invariants (reachable or not) takes every call once;
@@ -277,7 +277,7 @@ def main(tier):
                                   "transitions": ri.generated if hasattr(ri, "generated") else None}
     sd = common.seed()
     if thorough:
-        runs = [(4, "all", 1, 0), (5, "mut", 2, common.sample_seed()), (5, "all", 4, common.sample_seed(1)), (4, "ro", 1, 0)]
+        runs = [(4, "all", 1, 0), (5, "mut", 2, common.sample_seed()), (5, "all", 4, common.sample_seed(1)), (4, "ro", 4, common.sample_seed(2))]
     else:
         runs = [(3, "all", 1, 0), (4, "all", 16, common.sample_seed()), (5, "mut", 160, common.sample_seed(1)), (3, "ro", 1, 0)]
     n = 0
